@@ -112,12 +112,13 @@ func worldC09(w *World) {
 		authName   string
 		ws         bool
 		connNamed  bool
+		upgrade    bool
 	}
 	reqs := make([]*creq, n)
 	fp := NewFakeProxy(w)
 	var ids []string
 	for i := range reqs {
-		c := &creq{id: fmt.Sprintf("r%02d", i), user: []string{"user0@example.com", "user1@example.com", "user2@example.com", "dev+oncall@example.com", "svc%2Bbatch@example.com", "accounts.example.com:1234%20x"}[t.Choice(6, "user")]}
+		c := &creq{id: fmt.Sprintf("r%02d", i), user: []string{"user0@example.com", "user1@example.com", "user2@example.com", "dev+oncall@example.com", "svc%2Bbatch@example.com", "accounts.example.com:1234%20x", ""}[t.Choice(7, "user")]}
 		c.forgedName = []string{"X-Inverting-Proxy-User-ID", "x-inverting-proxy-user-id", "X-INVERTING-PROXY-USER-ID", "X-Inverting-Proxy-User-Id"}[t.Choice(4, "forgedname")]
 		switch t.Pick("forged", 2, 3, 2) {
 		case 1:
@@ -141,16 +142,27 @@ func worldC09(w *World) {
 			hdr = append(hdr, c.authName+": "+v)
 		}
 		hdr = append(hdr, "X-Token: "+c.id)
+		// a plain (non-shim) protocol upgrade request
+		c.upgrade = !c.ws && t.Rare(1, 5, "upgrade")
 		// the client may declare the very headers the backend trusts as hop-by-hop
+		up := ""
+		if c.upgrade {
+			up = "Upgrade, "
+			hdr = append(hdr, "Upgrade: websocket", "Sec-WebSocket-Version: 13", "Sec-WebSocket-Key: dGhlIHNhbXBsZSBub25jZQ==")
+		}
 		switch t.Pick("connection", 5, 1, 1, 1) {
+		case 0:
+			if c.upgrade {
+				hdr = append(hdr, "Connection: Upgrade")
+			}
 		case 1:
-			hdr = append(hdr, "Connection: "+c.forgedName)
+			hdr = append(hdr, "Connection: "+up+c.forgedName)
 			c.connNamed = true
 		case 2:
-			hdr = append(hdr, "Connection: keep-alive, x-inverting-proxy-user-id, X-Token-Other")
+			hdr = append(hdr, "Connection: "+up+"keep-alive, x-inverting-proxy-user-id, X-Token-Other")
 			c.connNamed = true
 		case 3:
-			hdr = append(hdr, "Connection: "+c.authName)
+			hdr = append(hdr, "Connection: "+up+c.authName)
 		}
 		var raw string
 		if c.ws {
@@ -263,6 +275,12 @@ func worldC09(w *World) {
 			}
 			if c.connNamed && forward {
 				w.Probe("user_id_named_hop_by_hop_by_client")
+			}
+			if c.upgrade && c.connNamed && forward {
+				w.Probe("upgrade_request_naming_the_user_id")
+			}
+			if c.user == "" && len(c.forgedUser) > 0 && forward {
+				w.Probe("empty_identity_with_forged_header")
 			}
 			if strings.ContainsAny(c.user, "+%") && forward {
 				w.Probe("identity_with_escapes")
